@@ -491,6 +491,9 @@ func (i *interpreter) decide(cond *Term, what string) bool {
 	alt := append(append([]Decision(nil), r.taken...), Decision{Taken: false})
 	r.newPref = append(r.newPref, alt)
 	r.forks++
+	if r.cfg.Verbose {
+		r.intrins["fork@"+what+" "+i.whereAmI()]++
+	}
 	r.taken = append(r.taken, Decision{Taken: true})
 	s.Assert(cond)
 	return true
